@@ -23,6 +23,10 @@ extern "C" {
 }
 
 // ---------------------------------------------------------------- utilities
+#if SBH_WRAP
+extern "C" void aw_fail_next_plain(int k);
+#endif
+
 // every library object starts out as garbage (0xA5): an init function that forgets a field shows
 #define SBH_DIRTY(obj) memset(&(obj), 0xA5, sizeof(obj))
 
@@ -652,6 +656,49 @@ static std::string op_yaw(const std::vector<std::string>& w)
 }
 
 // light <mode f|h> <hex> <queries>: c<t> colour, p<t> pyro mask, s<t> seek; t in decimal ms
+// light x <hex> <queries>: one player with a history against a fresh player per query, C against C (for programs
+// outside the domain of the model comparison, e.g. loops nested deeper than the format supports): '=' same answer, 'X' not
+static std::string op_light_x(const std::string& hexprog, const std::string& queries)
+{
+    std::vector<uint8_t> b = unhex(hexprog);
+    Guarded g(b);
+    sb_light_program_t prog;
+    SBH_DIRTY(prog);
+    if (sb_light_program_init_from_buffer(&prog, g.ptr, g.n) != SB_SUCCESS) {
+        return "init:e";
+    }
+    sb_light_player_t hp;
+    SBH_DIRTY(hp);
+    sb_light_player_init(&hp, &prog);
+    std::string out;
+    for (const std::string& q : csv(queries)) {
+        char kind = q[0];
+        unsigned long t = strtoul(q.c_str() + 1, 0, 10);
+        sb_light_player_t fp;
+        SBH_DIRTY(fp);
+        sb_light_player_init(&fp, &prog);
+        std::string a, c;
+        if (kind == 'c') {
+            sb_rgb_color_t x = sb_light_player_get_color_at(&hp, t), y = sb_light_player_get_color_at(&fp, t);
+            a = S(x.red) + "," + S(x.green) + "," + S(x.blue);
+            c = S(y.red) + "," + S(y.green) + "," + S(y.blue);
+        } else if (kind == 'p') {
+            a = S(sb_light_player_get_pyro_channels_at(&hp, t));
+            c = S(sb_light_player_get_pyro_channels_at(&fp, t));
+        } else {
+            unsigned long n1 = 0, n2 = 0;
+            sb_bool_t e1 = sb_light_player_seek(&hp, t, &n1), e2 = sb_light_player_seek(&fp, t, &n2);
+            a = S(e1 ? 1 : 0);
+            c = S(e2 ? 1 : 0);
+        }
+        out += (out.empty() ? "" : " ") + std::string(1, kind) + ":" + a + (a == c ? ":=" : ":X:" + c);
+        sb_light_player_destroy(&fp);
+    }
+    sb_light_player_destroy(&hp);
+    sb_light_program_destroy(&prog);
+    return out;
+}
+
 static std::string op_light(bool hist, const std::string& hexprog, const std::string& queries)
 {
     bool empty = false;
@@ -1421,6 +1468,22 @@ static std::string op_routes(const std::vector<std::string>& w)
                 sb_error_t ec = sb_trajectory_clear(&t);
                 o += " | clear" + code(ec) + " " + obs_traj(&t);
                 sb_trajectory_destroy(&t);
+#if SBH_WRAP
+                // the same with no memory to be had during the clear: clearing needs none on either route
+                // (a fresh copy of the bytes: clearing a view writes into the caller's image)
+                Guarded g2(b);
+                int fd2 = r == 0 ? make_fd(b) : -1;
+                sb_trajectory_t t2;
+                SBH_DIRTY(t2);
+                if ((r == 0 ? sb_trajectory_init_from_binary_file(&t2, fd2) : sb_trajectory_init_from_binary_file_in_memory(&t2, g2.ptr, g2.n)) == SB_SUCCESS) {
+                    aw_fail_next_plain(1000);
+                    ec = sb_trajectory_clear(&t2);
+                    aw_fail_next_plain(0);
+                    o += " | nomem-clear" + code(ec) + " " + obs_traj(&t2);
+                    sb_trajectory_destroy(&t2);
+                }
+                if (fd2 >= 0) { close(fd2); }
+#endif
             }
         } else if (kind == "light") {
             sb_light_program_t t;
@@ -1432,6 +1495,20 @@ static std::string op_routes(const std::vector<std::string>& w)
                 sb_light_program_clear(&t);
                 o += " | clear " + obs_light(&t);
                 sb_light_program_destroy(&t);
+#if SBH_WRAP
+                Guarded g2(b);
+                int fd2 = r == 0 ? make_fd(b) : -1;
+                sb_light_program_t t2;
+                SBH_DIRTY(t2);
+                if ((r == 0 ? sb_light_program_init_from_binary_file(&t2, fd2) : sb_light_program_init_from_binary_file_in_memory(&t2, g2.ptr, g2.n)) == SB_SUCCESS) {
+                    aw_fail_next_plain(1000);
+                    sb_light_program_clear(&t2);
+                    aw_fail_next_plain(0);
+                    o += std::string(" | nomem-clear buf=") + (SB_BUFFER(t2.buffer) ? "set" : "null") + ":" + U(sb_buffer_size(&t2.buffer)) + " " + obs_light(&t2);
+                    sb_light_program_destroy(&t2);
+                }
+                if (fd2 >= 0) { close(fd2); }
+#endif
             }
         } else if (kind == "yaw") {
             sb_yaw_control_t t;
@@ -1858,6 +1935,9 @@ static std::string run_case(const std::vector<std::string>& w)
         return op_util(w);
     }
     if (op == "light") {
+        if (w[1] == "x") {
+            return op_light_x(w[2], w[3]);
+        }
         return op_light(w[1] == "h", w[2], w[3]);
     }
     if (op == "lightspec") {
